@@ -30,10 +30,15 @@ bool sqf::parser::config::parser::apply_to_confighost(::sqf::parser::config::bis
                parent.append_or_replace(node.children[0].token.contents);
            } break;
            case ::sqf::parser::config::bison::astkind::CLASS_DEF_EXT: {
+               auto wanted = parent.lookup_in_logical(std::string(node.children[1].token.contents));
                auto nav = parent.append_or_replace(node.children[0].token.contents, node.children[1].token.contents);
-               if (nav.parent_inherited().empty())
+               if (wanted.empty())
                {
                    __log(err::InheritedParentNotFound({ *node.token.path, node.token.line, node.token.column }, node.children[0].token.contents, node.children[1].token.contents));
+               }
+               else if ((*nav.parent_inherited()).container_id() != (*wanted).container_id())
+               {
+                   __log(err::InheritanceCycleRefused({ *node.token.path, node.token.line, node.token.column }, node.children[0].token.contents, node.children[1].token.contents));
                }
            } break;
            case ::sqf::parser::config::bison::astkind::CLASS: {
@@ -44,10 +49,15 @@ bool sqf::parser::config::parser::apply_to_confighost(::sqf::parser::config::bis
                }
            } break;
            case ::sqf::parser::config::bison::astkind::CLASS_EXT: {
+               auto wanted = parent.lookup_in_logical(std::string(node.children[1].token.contents));
                auto nav = parent.append_or_replace(node.children[0].token.contents, node.children[1].token.contents);
-               if (nav.parent_inherited().empty())
+               if (wanted.empty())
                {
                    __log(err::InheritedParentNotFound({ *node.token.path, node.token.line, node.token.column }, node.children[0].token.contents, node.children[1].token.contents));
+               }
+               else if ((*nav.parent_inherited()).container_id() != (*wanted).container_id())
+               {
+                   __log(err::InheritanceCycleRefused({ *node.token.path, node.token.line, node.token.column }, node.children[0].token.contents, node.children[1].token.contents));
                }
                for (auto subnode : node.children[2].children)
                {
